@@ -109,6 +109,25 @@ func c01probes() []c01probe {
 	}
 	add("C01-response-cookie-nonstring", pdesign(nil, nil, &m.Method{Name: "m", Result: rt.Obj(rt.Fld("n", m.Prim(m.Int), false), rt.Fld("s", str, false)),
 		HTTP: &m.HTTPEndpoint{Routes: route("GET", "/m"), Responses: []*m.Response{{Status: 200, Cookies: []m.Mapping{{Attr: "n", Wire: "ncookie"}}}}}}))
+	add("C01-param-named-like-generated-local", pdesign(nil, nil, &m.Method{Name: "m", Payload: rt.Obj(rt.Fld("r", m.Prim(m.Int), false), rt.Fld("q", str, false)),
+		HTTP: &m.HTTPEndpoint{Routes: route("POST", "/m"), Headers: []m.Mapping{{Attr: "r", Wire: "X-R"}}}}))
+	{
+		a := m.Prim(m.Bytes)
+		a.V = &m.Validation{MinLen: intp(2)}
+		add("C01-bytes-param-with-length-validation", pdesign(nil, nil, &m.Method{Name: "m", Payload: rt.Obj(rt.Fld("data", a, false)),
+			HTTP: &m.HTTPEndpoint{Routes: route("POST", "/m"), Query: []m.Mapping{{Attr: "data"}}}}))
+	}
+	{
+		un := func() *m.Attr {
+			return &m.Attr{Type: &m.Type{Kind: m.Union, Fields: []*m.Field{rt.Fld("alt_a", str, false), rt.Fld("alt_b", boolean, false)}}}
+		}
+		add("C01-union-in-inline-object", pdesign(nil, nil, &m.Method{Name: "m",
+			Payload: rt.Obj(rt.Fld("box", rt.Obj(rt.Fld("x", str, false), rt.Fld("u", un(), false)), false)),
+			HTTP:    &m.HTTPEndpoint{Routes: route("POST", "/m")}}))
+		add("C01-union-in-body-fields", pdesign(nil, nil, &m.Method{Name: "m",
+			Payload: rt.Obj(rt.Fld("u", un(), false), rt.Fld("q", str, false)),
+			HTTP:    &m.HTTPEndpoint{Routes: route("POST", "/m"), Query: []m.Mapping{{Attr: "q"}}, Body: &m.Body{Mode: "fields", Fields: []string{"u"}}}}))
+	}
 	// gRPC
 	{
 		health := &m.Service{Name: "health", HasHTTP: true, Methods: []*m.Method{{Name: "ping", HTTP: &m.HTTPEndpoint{Routes: route("GET", "/ping")}}}}
